@@ -311,9 +311,9 @@ func (g *gen) stageAztec() {
 	for i := 0; i < g.n(150, 4000); i++ {
 		g.emit("st.az.hl %s", hx(g.azText(1+g.intn(12))))
 	}
-	for _, r := range []int{30, 31, 32, 33, 62, 63, 64, 2078, 2079} {
-		if r > 100 && !g.thorough() {
-			continue
+	for _, r := range []int{30, 31, 32, 33, 62, 63, 64, 2077, 2078, 2079, 2080} {
+		if r > 100 && !g.thorough() && r != 2078 && r != 2079 {
+			continue // (quick keeps the two lengths around the forced end of a binary shift at 2047+31 bytes)
 		}
 		g.emit("st.az.hl %s", hx(g.str(azClasses[5], r)))
 		g.emit("st.az.hl %s", hx("a"+g.str(azClasses[5], r)+"1"))
